@@ -386,8 +386,14 @@ func (r *Run) Sched(o SchedOpts) {
 			r.Try(o.Invariant)
 		}
 
-		if o.Until != nil && o.Until() {
-			return
+		if o.Until != nil {
+			stop := false
+
+			r.Try(func() { stop = o.Until() })
+
+			if stop {
+				return
+			}
 		}
 
 		if !o.KeepGoing && r.Live() == 0 {
